@@ -8,6 +8,7 @@
 static void s_pre(unsigned long long a); static void s_cas_ok(unsigned long long a, unsigned long long o, unsigned long long n); static void s_rmw(unsigned long long a, unsigned long long o);
 #define IR_CAS_PRE(a, o) s_pre(a)
 #define IR_RMW_PRE(a, o) s_pre(a)
+#define IR_ALOAD_PRE(a, o) s_pre(a)      /* a plain (re-)read of the value is an access other threads can get in front of, too */
 #define IR_CAS_OK(a, old, nw, o) s_cas_ok(a, old, nw)
 #define IR_RMW_DONE(a, old, o) s_rmw(a, old)
 #include "model.c"
@@ -20,11 +21,11 @@ static void s_pre(unsigned long long a); static void s_cas_ok(unsigned long long
 #define S_MAX_INTERFERE 2
 #endif
 static u64 in_value, in_timeout, in_interfere[S_MAX_INTERFERE], in_do_interfere[S_MAX_INTERFERE], in_kernel_timeout[2]; static int s_ninterfere; static _Bool s_on;
-static s64 own_dv; static int own_ops, undo_cas; static s64 undo_from;
+static s64 own_dv; static int own_ops, undo_cas; static s64 undo_from, rmw_old;
 static void s_pre(unsigned long long a) { if (a != VADDR || !s_on) return;
   if (s_ninterfere < S_MAX_INTERFERE) { int k = s_ninterfere++; SYM_AT(in_do_interfere, k); SYM_AT(in_interfere, k); if (in_do_interfere[k] & 1) { ASSUME((s64)in_interfere[k] != (s64)0x7fffffffffffffffll && (s64)in_interfere[k] != (s64)(-0x7fffffffffffffffll - 1));  /* value at LONG_MAX / LONG_MIN: the documented unbalanced-call crash */ IR_ST64(VADDR, in_interfere[k]); } } }
 static void s_cas_ok(unsigned long long a, unsigned long long o, unsigned long long n) { if (a == VADDR) { own_dv += (s64)(n - o); own_ops++; undo_cas++; undo_from = (s64)o; } }
-static void s_rmw(unsigned long long a, unsigned long long o) { if (a == VADDR) { own_dv += (s64)(IR_LD64(VADDR) - o); own_ops++; } }
+static void s_rmw(unsigned long long a, unsigned long long o) { if (a == VADDR) { own_dv += (s64)(IR_LD64(VADDR) - o); own_ops++; rmw_old = (s64)o; } }
 void _dispatch_bug(u64 l, u64 v) { ASSERT(0, "_dispatch_bug"); }
 u64 ir_dyn_alloca(u64 n) { ASSERT(0, "dynamic alloca"); return 0; }
 void libdispatch_tsd_init(void) { }
@@ -44,8 +45,8 @@ void harness(void) {
   u64 before_trap = 0;
   u64 r = dispatch_semaphore_signal(DS);
   ASSERT(own_ops == 1 && own_dv == 1, "CONSERVATION: signal adds exactly one permit to the value");
-  s64 newv = (s64)IR_LD64(VADDR);   /* no interference after the increment in this lemma: the hook fires before atomic accesses only */
-  ASSERT(k_posts == ((newv <= 0) ? 1 : 0), "NO-LOST-SIGNAL / NO-SPURIOUS: a kernel wake-up is posted exactly when the incremented value shows a waiter (old value negative)");
+  /* judged on the value this call's own increment started from (other threads may move the value again afterwards - the wake-up is still owed) */
+  ASSERT(k_posts == ((rmw_old < 0) ? 1 : 0), "NO-LOST-SIGNAL / NO-SPURIOUS: a kernel wake-up is posted exactly when the incremented value shows a waiter (old value negative), whatever other threads do to the value afterwards");
   ASSERT((r != 0) == (k_posts == 1), "the return value tells whether a waiter was woken");
   WITNESS_IF(k_posts, "signal wakes a waiter"); WITNESS_IF(!k_posts, "signal banks a permit");
 }
